@@ -17,6 +17,9 @@ ASSUMPTIONS = [
 CHUNK = 2000
 PD = ["current", "first", "last"]
 FORMS_MY = ["Month YYYY", "Mon YYYY", "MM/YYYY", "YYYY-MM", "Month, YYYY"]
+# month-year / year-only strings that also carry a clock time: day and month are still filled per the preferences, the time is kept;
+# which period such a string has is not settled by the statement (a time, but no day) and is not judged
+FORMS_T = {"Month YYYY HH:MM": "Month YYYY", "MM/YYYY HH:MM": "MM/YYYY", "YYYY-MM HH:MM": "YYYY-MM", "Mon YYYY at 5pm": "Mon YYYY", "YYYY HH:MM": "YYYY"}
 FORMS_FULL = ["D Month YYYY", "YYYY-MM-DD", "Mon D, YYYY", "YYYY-MM-DD HH:MM", "YYYY DDD"]
 
 
@@ -37,6 +40,8 @@ YEARS = [1, 4, 100, 400, 1582, 1900, 2000, 2023, 2024, 2100, 9996, 9999]
 
 
 def render(form, y, m, d=None):
+    if form in FORMS_T:
+        return render(FORMS_T[form], y, m, d) + (" at 5pm" if form.endswith("5pm") else " 10:30")
     Y = "%04d" % y
     mon = cal.MONTHS[m - 1].capitalize() if m else None
     return {
@@ -57,6 +62,8 @@ def spaces(tier, seed):
                       note="exhaustive for the last-day rule"))
     sp.append(Product("month-year-forms", {"y": YEARS, "m": range(1, 13), "form": FORMS_MY, "pd": PD, "pm": PD,
                                            "base": range(len(BASES)), "parser": ["absolute"]}))
+    sp.append(Product("month-year-with-a-clock-time", {"y": [4, 1900, 2000, 2015, 2016, 2100] if not T else YEARS, "m": range(1, 13), "form": list(FORMS_T), "pd": PD, "pm": PD,
+                                                       "base": [0, 1, 2, 4, 5, 6, 9, 18, 23, 26] if not T else range(len(BASES)), "parser": ["absolute"]}))
     sp.append(Product("year-only", {"y": YEARS + [1000, 1530, 2359, 1960, 99], "m": [0], "form": ["YYYY"], "pd": PD, "pm": PD,
                                     "base": range(len(BASES)), "parser": ["absolute"]}))
     sp.append(Product("full-dates-unaltered", {"y": [4, 1900, 2000, 2023, 2024], "m": range(1, 13), "d": [1, 15, 28, 29, 30, 31],
@@ -86,6 +93,14 @@ CFMT = {"MM/YYYY": "%m/%Y", "Month YYYY": "%B %Y", "Mon YYYY": "%b %Y", "YYYY": 
 def expected(c, base):
     y, m, d = c["y"], c["m"], c.get("d")
     form = c["form"]
+    if form in FORMS_T:
+        hh, mi = (17, 0) if form.endswith("5pm") else (10, 30)
+        base_form = FORMS_T[form]
+        if base_form == "YYYY":
+            m = {"first": 1, "last": 12, "current": base.month}[c["pm"]]
+        last = cal.month_len(y, m)
+        d = {"first": 1, "last": last, "current": min(base.day, last)}[c["pd"]]
+        return datetime(y, m, d, hh, mi), None
     if form in FORMS_FULL:
         if form.endswith("HH:MM"):
             return datetime(y, m, d, 10, 30), ("time" if c.get("rtp") else "day")
@@ -114,7 +129,7 @@ def run_case(sub, c):
     if o[0] == "ok":
         dd = o[1]
         got = (dd.date_obj, dd.period)
-        if got == exp and dd.date_obj.tzinfo is None:
+        if (got == exp or (exp[1] is None and dd.date_obj == exp[0])) and dd.date_obj.tzinfo is None:
             return "ok", True, None
         kind = "none" if dd.date_obj is None else ("wrong-period" if dd.date_obj == exp[0] else "wrong-value")
     else:
